@@ -230,6 +230,10 @@ extern "C" {
                         auto context = wptr.lock();
                         context->push_frame({ ref.runtime->default_value_scope(), set.value() });
                         auto result = ref.runtime->execute(sqf::runtime::runtime::action::start);
+                        if (ref.runtime->is_exit_requested())
+                        { // the run was cut short (runtime limit, exit request): it did not execute to completion
+                            return result_failed;
+                        }
                         switch (result)
                         {
                             case sqf::runtime::runtime::result::ok:
@@ -258,6 +262,10 @@ extern "C" {
                         auto context = wptr.lock();
                         context->push_frame({ ref.runtime->default_value_scope(), set.value() });
                         auto result = ref.runtime->execute(sqf::runtime::runtime::action::start);
+                        if (ref.runtime->is_exit_requested())
+                        { // the run was cut short (runtime limit, exit request): it did not execute to completion
+                            return result_failed;
+                        }
                         switch (result)
                         {
                             case sqf::runtime::runtime::result::ok:
@@ -288,6 +296,10 @@ extern "C" {
                         auto context = wptr.lock();
                         context->push_frame({ ref.runtime->default_value_scope(), set.value() });
                         auto result = ref.runtime->execute(sqf::runtime::runtime::action::start);
+                        if (ref.runtime->is_exit_requested())
+                        { // the run was cut short (runtime limit, exit request): it did not execute to completion
+                            return result_failed;
+                        }
                         switch (result)
                         {
                             case sqf::runtime::runtime::result::ok:
